@@ -26,6 +26,9 @@ type Case struct {
 	NB           int     `json:"nb,omitempty"`     // leader-bound: number of brokers
 	Spread       []int32 `json:"spread,omitempty"` // leader-bound: item i is led / coordinated by broker Spread[i]; DescribeLogDirs: the broker ids asked
 	Fault        Fault   `json:"fault,omitempty"`
+	// Order: operations that ask several brokers at the same time (DescribeLogDirs, ListConsumerGroups): the order in which
+	// the brokers' answers (or connection failures) are released, one at a time; empty = answered as the requests arrive
+	Order []int32 `json:"order,omitempty"`
 }
 
 func (c *Case) Key() string {
@@ -40,7 +43,7 @@ var versions = []string{"0.10.0.0", "0.10.2.0", "0.11.0.0", "1.0.0.0", "2.4.0.0"
 var apiMin = map[string]string{
 	"CreateTopic": "0.10.1.0", "DeleteTopic": "0.10.1.0", "CreatePartitions": "1.0.0.0", "AlterPartitionReassignments": "2.4.0.0",
 	"DeleteRecords": "0.11.0.0", "ListConsumerGroupOffsets": "0.8.2.0", "DescribeConsumerGroups": "0.9.0.0",
-	"DeleteConsumerGroup": "1.1.0.0", "DescribeLogDirs": "1.0.0.0",
+	"DeleteConsumerGroup": "1.1.0.0", "DescribeLogDirs": "1.0.0.0", "ListConsumerGroups": "0.9.0.0",
 }
 
 var apiMaxVersion = map[string]map[string]int16{
@@ -53,13 +56,14 @@ var apiMaxVersion = map[string]map[string]int16{
 	"DescribeConsumerGroups":      {"0.10.0.0": 0, "0.10.2.0": 0, "0.11.0.0": 1, "1.0.0.0": 1, "2.4.0.0": 5},
 	"DeleteConsumerGroup":         {"2.4.0.0": 2},
 	"DescribeLogDirs":             {"1.0.0.0": 0, "2.4.0.0": 1},
+	"ListConsumerGroups":          {"0.10.0.0": 0, "0.10.2.0": 0, "0.11.0.0": 1, "1.0.0.0": 1, "2.4.0.0": 3},
 }
 
 var reqKind = map[string]string{
 	"CreateTopic": "CreateTopics", "DeleteTopic": "DeleteTopics", "CreatePartitions": "CreatePartitions",
 	"AlterPartitionReassignments": "AlterPartitionReassignments", "DeleteRecords": "DeleteRecords",
 	"ListConsumerGroupOffsets": "OffsetFetch", "DescribeConsumerGroups": "DescribeGroups",
-	"DeleteConsumerGroup": "DeleteGroups", "DescribeLogDirs": "DescribeLogDirs",
+	"DeleteConsumerGroup": "DeleteGroups", "DescribeLogDirs": "DescribeLogDirs", "ListConsumerGroups": "ListGroups",
 }
 
 func verLess(a, b string) bool {
@@ -380,6 +384,35 @@ func enumerate(tier string, want func(i int) bool) ([]Case, []int, int) {
 			}
 		}
 	}
+	// ---- family lead-order: the operations that ask several brokers AT THE SAME TIME, with the brokers' answers released one
+	// at a time in every order (which goroutine of the operation finishes last must not decide what the caller is told).
+	// ListConsumerGroups is not among the operations the property names; it is judged only for "a broker that fails makes the
+	// operation report an error" under connection-level failure
+	for _, op := range []string{"DescribeLogDirs", "ListConsumerGroups"} {
+		for _, v := range []string{"1.0.0.0", "2.4.0.0"} {
+			for nb := 2; nb <= 3; nb++ {
+				var ids []int32
+				for b := 1; b <= nb; b++ {
+					ids = append(ids, int32(b))
+				}
+				for _, ord := range perms(ids) {
+					c := leadCase("lead-order", op, v, nb, ids, Fault{})
+					c.Order = ord
+					e.add(c)
+					for _, b := range ids {
+						c := leadCase("lead-order", op, v, nb, ids, Fault{Kind: "drop", Broker: b})
+						c.Order = ord
+						e.add(c)
+						if op == "DescribeLogDirs" {
+							c := leadCase("lead-order", op, v, nb, ids, Fault{Kind: "item", Broker: b, Code: reprCodes[0]})
+							c.Order = ord
+							e.add(c)
+						}
+					}
+				}
+			}
+		}
+	}
 	// ---- family lead-codes: every error code for a single item on the smallest and on a 2-broker shape
 	for _, op := range leadOps {
 		v := "2.4.0.0"
@@ -411,4 +444,19 @@ func enumerate(tier string, want func(i int) bool) ([]Case, []int, int) {
 
 func leadCase(fam, op, v string, nb int, sp []int32, f Fault) Case {
 	return Case{Fam: fam, Op: op, Version: v, RetryMax: 2, NB: nb, Spread: append([]int32(nil), sp...), Fault: f}
+}
+
+// perms: every permutation of l, in lexicographic order of positions.
+func perms(l []int32) [][]int32 {
+	if len(l) <= 1 {
+		return [][]int32{append([]int32(nil), l...)}
+	}
+	var out [][]int32
+	for i := range l {
+		rest := append(append([]int32(nil), l[:i]...), l[i+1:]...)
+		for _, p := range perms(rest) {
+			out = append(out, append([]int32{l[i]}, p...))
+		}
+	}
+	return out
 }
